@@ -607,3 +607,50 @@ func c01RPM(r *Rng, sigs [][]byte) []c01F {
 	fs = append(fs, c01RPMHeader("main", 63, mainEs)...)
 	return append(fs, c01F{name: "payload", kind: 'r', b: r.Bytes(40), quiet: true})
 }
+
+// ---------- SSH protocol 1 private key file (OpenSSH authfile.c, "SSH PRIVATE KEY FILE FORMAT 1.1") ----------
+func c01SSH1Mpint(mag []byte) []byte {
+	for len(mag) > 0 && mag[0] == 0 {
+		mag = mag[1:]
+	}
+	bits := 0
+	if len(mag) > 0 {
+		bits = 8 * (len(mag) - 1)
+		for b := mag[0]; b > 0; b >>= 1 {
+			bits++
+		}
+	}
+	return c01Cat(c01U16(uint16(bits)), mag)
+}
+
+func c01GenSSH1(c *Ctx, r *Rng, add func(kind, name string, data []byte)) {
+	n := r.Bytes(128)
+	n[0] |= 0x80
+	n[127] |= 1
+	mp := func(name string, mag []byte) []c01F {
+		e := c01SSH1Mpint(mag)
+		bits := uint64(e[0])<<8 | uint64(e[1])
+		return []c01F{{name: name + "-bitcount", kind: 'h', v: bits, specialV: []uint64{bits + 8, bits - 8, bits + 1, 7, 8, 9, 1023, 1024, 1025}}, fRaw(name, e[2:])}
+	}
+	for _, cipher := range []uint64{0, 3} {
+		check := r.Bytes(2)
+		priv := c01Cat(check, check, c01SSH1Mpint(r.Bytes(128)), c01SSH1Mpint(r.Bytes(64)), c01SSH1Mpint(r.Bytes(64)), c01SSH1Mpint(r.Bytes(64)))
+		for len(priv)%8 != 0 {
+			priv = append(priv, 0)
+		}
+		pf := fRaw("private-part", priv)
+		for _, l := range []int{0, 1, 2, 3, 4, 5, 7, 8, 9, 15, 16, 17, len(priv) - 8, len(priv) - 1, len(priv) + 1, len(priv) + 7, len(priv) + 8} {
+			pf.special = append(pf.special, c01Stretch(priv, l))
+		}
+		pf.special = append(pf.special, c01Cat(check, []byte{check[0] ^ 1, check[1]}, priv[4:]), c01Cat(check, check, []byte{0xff, 0xff}, priv[6:]), c01Cat(check, check, []byte{0, 0}, priv[6:]))
+		fs := []c01F{fRaw("magic", []byte("SSH PRIVATE KEY FILE FORMAT 1.1\n\x00")), {name: "cipher", kind: 'b', v: cipher, specialV: []uint64{0, 1, 2, 3, 4, 5, 6, 7}}, fU32("reserved", 0), fU32("bits", 1024)}
+		fs[0].special = [][]byte{[]byte("SSH PRIVATE KEY FILE FORMAT 1.1\n"), []byte("SSH PRIVATE KEY FILE FORMAT 1.2\n\x00"), []byte("SSH PRIVATE KEY FILE FORMAT 1.1\r\n\x00")}
+		fs = append(fs, mp("n", n)...)
+		fs = append(fs, mp("e", []byte{1, 0, 1})...)
+		fs = append(fs, fStr("comment", []byte("user@host"), []byte(""), []byte("\xff\xfe"), []byte("a\x00b"), []byte("\x1b[31m"), []byte(strings.Repeat("c", 70000))), pf)
+		add("ssh1-genuine:ssh1", "identity", c01Enc(fs))
+		for _, v := range c01FieldVariants("ssh1", fs) {
+			add(v.tag+":ssh1", "identity", v.data)
+		}
+	}
+}
